@@ -1,6 +1,7 @@
 import GuppyVerif.Spec.C03
 import GuppyVerif.Model.Wiring
 import GuppyVerif.Model.OrderEdges
+import GuppyVerif.Model.Scope
 import GuppyVerif.Util.Sexp
 /-! Line-protocol driver for C03 / C05 (protocol: notes/C03.md §Protocol).
     `(build RN (s*))`                      -> `ok HS (cfg (bb i R|U (stmts …) (pred e|none) (succ …) (dsucc …)) …)` | `err K`
@@ -210,6 +211,30 @@ def handleOrder (xs : List Sexp) : String :=
     s!"ok {if s.dup then 1 else 0} (" ++ " ".intercalate ("edges" :: s.edges.map fun e => s!"({e.1} {e.2})") ++ ")"
   | none => "bad-op"
 
+/-- `(scope BIND F ID X (loc (n d|p k)*) (glob (n d|p k)*) (blt (n k)*))` -> `defn K` | `py K` | `missing`:
+    lookup of `X` in the scope with `F` bound to definition `ID` by `bindNested` (BIND = `l`), by the `f_globals` variant
+    (BIND = `g`) or not at all (BIND = `-`) -/
+def sval? : Sexp → Option (String × Scope.Val)
+  | .list [.atom n, .atom "d", k] => k.asNat?.map fun k => (n, .defn k)
+  | .list [.atom n, .atom "p", k] => k.asNat?.map fun k => (n, .py k)
+  | _ => none
+def sblt? : Sexp → Option (String × Nat)
+  | .list [.atom n, k] => k.asNat?.map fun k => (n, k)
+  | _ => none
+def handleScope (bind f : String) (id : Sexp) (x : String) (loc glob blt : Sexp) : String :=
+  match id.asNat?, loc, glob, blt with
+  | some id, .list (.atom "loc" :: ls), .list (.atom "glob" :: gs), .list (.atom "blt" :: bs) =>
+    match ls.mapM sval?, gs.mapM sval?, bs.mapM sblt? with
+    | some l, some g, some b =>
+      let g0 : Scope.Globals := ⟨l, g, b⟩
+      let g1 := if bind == "l" then Scope.bindNested g0 f id else if bind == "g" then Scope.bindNestedInGlobals g0 f id else g0
+      match Scope.lookup g1 x with
+      | .defn k => s!"defn {k}"
+      | .py k => s!"py {k}"
+      | .missing => "missing"
+    | _, _, _ => "bad-op"
+  | _, _, _, _ => "bad-op"
+
 def handle (line : String) : String :=
   match Sexp.parse line with
   | some (.list [.atom "build", .atom rn, body]) =>
@@ -225,6 +250,7 @@ def handle (line : String) : String :=
     | _, _, _ => "bad-op"
   | some (.list [.atom "wire", .atom entry, inS, outsS, exitsS]) => handleWire entry inS outsS exitsS
   | some (.list (.atom "order" :: xs)) => handleOrder xs
+  | some (.list [.atom "scope", .atom bind, .atom f, id, .atom x, loc, glob, blt]) => handleScope bind f id x loc glob blt
   | _ => "bad-op"
 
 def main : IO Unit := do lineLoop (← IO.getStdin) handle
